@@ -153,6 +153,7 @@ class SymNP:
         return _np.finfo(t)
 
     def allclose(self, a, b, rtol=1e-05, atol=1e-08, **k):
+        a, b = _deep_unwrap(a), _deep_unwrap(b)
         if has_sym(a) or has_sym(b):
             # exact-arithmetic reading: |a-b| <= atol + rtol*|b| element-wise (forks)
             aa, bb = _np.broadcast_arrays(_np.asarray(a, dtype=object), _np.asarray(b, dtype=object))
@@ -165,6 +166,7 @@ class SymNP:
         return _np.allclose(a, b, rtol=rtol, atol=atol, **k)
 
     def isclose(self, a, b, rtol=1e-05, atol=1e-08, **k):
+        a, b = _deep_unwrap(a), _deep_unwrap(b)
         if has_sym(a) or has_sym(b):
             return abs(a - b) <= atol + rtol * abs(b)
         return _np.isclose(a, b, rtol=rtol, atol=atol, **k)
